@@ -128,7 +128,7 @@ def post(run, cases, impl, model):
                       {"kind": "PFC", "operation": "capacity-check", "detail": "source check: %s" % chk}, found_input=False)
 
 
-CFG = DC.Config("C07", D.ALL_KINDS, make_cmds, nsets=(7, 40), big=True, extra_eval=extra_eval, post=post, timeout_case=120,
+CFG = DC.Config("C07", D.ALL_KINDS, make_cmds, nsets=(7, 18), big=True, extra_eval=extra_eval, post=post, timeout_case=120,
                 rule="all 13 kinds built with the MEMALLOC hook shrunk to 16 bytes (every Reallocate path executes on small inputs), then "
                      "queries with well-formed arguments (ids 0, 1, n, n+1, 2^32-1, 2^32, 2^64-1; members, absent strings, prefixes, "
                      "substrings, ranks, table scans), save, load through both loaders, an in-process history and destruction of every "
